@@ -712,6 +712,7 @@ _PIL = "urwid/widget/pile.py"
 _COL = "urwid/widget/columns.py"
 _BOX = "urwid/widget/box_adapter.py"
 MUTANTS = [
+    Mut("twin-overlay-cursor-clip-spelled-out", "urwid/widget/overlay.py", "Overlay.get_cursor_coords", "        if not (0 <= x < maxcol and 0 <= y < maxrow):", "        if x < 0 or x >= maxcol or y < 0 or y >= maxrow:", twin=True),
     Mut("overlay-cursor-clamped-into-view", "urwid/widget/overlay.py", "Overlay.get_cursor_coords", "        x, y = coords[0] + left, coords[1] + top\n        if not (0 <= x < maxcol and 0 <= y < maxrow):\n            # the part of the top widget that holds the cursor is clipped away: the rendering shows no cursor\n            return None\n        return x, y\n", "        x, y = coords\n        if y >= maxrow:\n            y = maxrow - 1\n        return x + left, y + top\n", "POSBOUND|widget.overlay.Overlay.get_cursor_coords|overlay cursor reported without clipping test"),
     Mut("icon-cursor-right-edge-only", "urwid/widget/wimp.py", "SelectableIcon.get_cursor_coords", "        if not 0 <= x < maxcol:", "        if maxcol <= x:", "POSBOUND|widget.wimp.SelectableIcon.get_cursor_coords|column x checked on one side only"),
     Mut("twin-icon-cursor-two-tests", "urwid/widget/wimp.py", "SelectableIcon.get_cursor_coords", "        if not 0 <= x < maxcol:", "        if x < 0 or maxcol <= x:", twin=True),
